@@ -40,6 +40,8 @@ type Mode struct {
 	Name    string
 	Images  bool // materialise crash images and open them in a child process (C02)
 	Readers int  // weight of reader open/close and second-writer operations (C11 uses more)
+	Recover bool // C03/C14 (recover.go): every record keeps its crash image, nothing is flushed before the end of a lifetime
+	Faults  bool // C14 (faults.go): AsyncError calls are recorded, a fault-injecting Directory sits under the recording one
 }
 
 // ---------------------------------------------------------------- snapshot file format (index/snapshot.go)
@@ -123,12 +125,15 @@ func ints(xs []int) string {
 type image struct {
 	files    map[string][]byte // complete files at this instant
 	inflight map[string][]byte // files whose Persist has not returned (full intended content)
+	prev     map[string][]byte // Recover: what the file of an in-flight name held when its Persist began (absent: no entry)
 }
 
 type rec struct {
 	op    string
 	state string
 	img   *image
+	spec  *batchSpec // Recover: the batch an `intro` record introduced
+	c     int        // … and its index
 }
 
 type batchSpec struct {
@@ -181,6 +186,15 @@ type caseRun struct {
 	dblClose int
 	imgSeq   int
 	imgEvery int
+
+	// Recover / Faults (recover.go, faults.go)
+	prev       map[string][]byte                       // previous content of the in-flight names
+	lastLoaded uint64                                  // epoch of the last snapshot loadSnapshots made the root
+	loadedAny  bool
+	wrapDir    func(index.Directory) index.Directory  // fault injector between the recording Directory and the file system
+	cfgHook    func(*index.Config)
+	asyncErrs  int
+	lt         *lifetime
 }
 
 var current *caseRun
@@ -278,6 +292,9 @@ func (c *caseRun) wantImage(op string) bool {
 	if !c.mode.Images {
 		return false
 	}
+	if c.mode.Recover {
+		return true
+	}
 	if c.tier == "thorough" {
 		return true
 	}
@@ -299,6 +316,14 @@ func (c *caseRun) recordLocked(op string) {
 		}
 		for k, v := range c.inflight {
 			im.inflight[k] = v
+		}
+		if c.mode.Recover {
+			im.prev = map[string][]byte{}
+			for k := range c.inflight {
+				if v, ok := c.prev[k]; ok {
+					im.prev[k] = v
+				}
+			}
 		}
 		r.img = im
 	}
@@ -372,6 +397,11 @@ func (c *caseRun) trace(kind string, snap *index.Snapshot, x uint64) {
 				cbi = 1
 			}
 			c.recordLocked(fmt.Sprintf("intro %d %s %s %d %d", e, ids(added), ids(gone), safe, cbi))
+			if c.mode.Recover {
+				last := &c.log[len(c.log)-1]
+				spc := c.specs[len(c.specs)-1]
+				last.spec, last.c = &spc, c.applied
+			}
 			if c.curIntro != nil {
 				ch := c.curIntro
 				c.curIntro, c.curSpec = nil, nil
@@ -389,6 +419,7 @@ func (c *caseRun) trace(kind string, snap *index.Snapshot, x uint64) {
 			c.rootSegs = segs
 			c.recordLocked(fmt.Sprintf("ipersist %d", e))
 		case "loadSnapshot":
+			c.lastLoaded, c.loadedAny = e, true
 			c.rootSegs = segs
 			for _, a := range segs {
 				c.isFile[a] = true
@@ -421,7 +452,7 @@ func (c *caseRun) trace(kind string, snap *index.Snapshot, x uint64) {
 // ---------------------------------------------------------------- recording Directory
 
 type recDir struct {
-	inner *index.FileSystemDirectory
+	inner index.Directory // the real FileSystemDirectory (C14: under a fault injector)
 	c     *caseRun
 }
 
@@ -498,6 +529,13 @@ func (d *recDir) Persist(kind string, id uint64, w index.WriterTo, closeCh chan 
 	name := fileName(kind, id)
 	_, isMerge := w.(interface{ DocumentNumbers() [][]uint64 })
 	c.mu.Lock()
+	if c.mode.Recover {
+		if old, err := os.ReadFile(filepath.Join(c.dir, name)); err == nil {
+			c.prev[name] = old
+		} else {
+			delete(c.prev, name)
+		}
+	}
 	if kind == index.ItemKindSnapshot {
 		var segs []uint64
 		if s, ok := w.(*index.Snapshot); ok {
@@ -604,7 +642,11 @@ func (p *recPolicy) Cleanup(d index.Directory) error { return p.inner.Cleanup(d)
 func (c *caseRun) config() index.Config {
 	cfg := bluge.DefaultConfig(c.dir).VerifIndexConfig()
 	cfg.DirectoryFunc = func() index.Directory {
-		return &recDir{inner: index.NewFileSystemDirectory(c.dir), c: c}
+		var inner index.Directory = index.NewFileSystemDirectory(c.dir)
+		if c.wrapDir != nil {
+			inner = c.wrapDir(inner)
+		}
+		return &recDir{inner: inner, c: c}
 	}
 	n := c.n
 	cfg.DeletionPolicyFunc = func() index.DeletionPolicy {
@@ -622,6 +664,21 @@ func (c *caseRun) config() index.Config {
 		}
 	}
 	cfg.AsyncError = func(err error) {}
+	if c.mode.Faults {
+		cfg.AsyncError = func(err error) {
+			c.mu.Lock()
+			c.asyncErrs++
+			kind := "persister"
+			if strings.Contains(err.Error(), "merging err") {
+				kind = "merger"
+			}
+			c.recordLocked("asyncerr " + kind)
+			c.mu.Unlock()
+		}
+	}
+	if c.cfgHook != nil {
+		c.cfgHook(&cfg)
+	}
 	return cfg
 }
 
@@ -665,8 +722,10 @@ func (c *caseRun) runBatch(sp batchSpec, wg *sync.WaitGroup) {
 		return
 	}
 	b := index.NewBatch()
-	d := bluge.NewDocument(marker(sp.tok)).AddField(bluge.NewKeywordField("tok", strconv.Itoa(sp.tok)).StoreValue())
-	b.Insert(d)
+	if sp.tok > 0 { // tok 0: a batch without its own marker document (deletes / updates only)
+		d := bluge.NewDocument(marker(sp.tok)).AddField(bluge.NewKeywordField("tok", strconv.Itoa(sp.tok)).StoreValue())
+		b.Insert(d)
+	}
 	for _, t := range sp.dels {
 		b.Delete(bluge.Identifier(marker(t)))
 	}
@@ -769,7 +828,9 @@ func (c *caseRun) expectAfter(k int) map[int]bool {
 	m := map[int]bool{}
 	for i := 0; i < k && i < len(c.specs); i++ {
 		sp := c.specs[i]
-		m[sp.tok] = true
+		if sp.tok > 0 {
+			m[sp.tok] = true
+		}
 		for _, d := range sp.dels {
 			delete(m, d)
 		}
@@ -1188,7 +1249,7 @@ func (h *H) Exec(line string, out func(string, string), st *hlib.Stats, work str
 		c := &caseRun{mode: h.Mode, tier: os.Getenv("VERIF_TIER"), dir: filepath.Join(cw, "idx"), work: cw,
 			n: kvInt(f, "n", 1), unsafe: kvInt(f, "unsafe", 0) == 1, merge: kvInt(f, "merge", 2), jit: kvInt(f, "jit", 0),
 			rng: hlib.NewRand(uint64(kvInt(f, "seed", 1))), files: map[string][]byte{}, inflight: map[string][]byte{},
-			isFile: map[uint64]bool{}, epochK: map[uint64]int{}, introSem: make(chan struct{}, 1), tokC: map[int]int{},
+			isFile: map[uint64]bool{}, epochK: map[uint64]int{}, introSem: make(chan struct{}, 1), tokC: map[int]int{}, prev: map[string][]byte{},
 			acked: map[int]bool{}, readers: map[int]*index.Snapshot{}, imgEvery: 8}
 		h.cur = c
 		current = c
